@@ -150,10 +150,65 @@ def run(repo: Repo, rep: Report, tier: str) -> None:
                 rep.violation("R19.2", l.site[0], f"dispatcher emits `{l.tmpl.skeleton()[:70]}`", "dispatching code must not call hooks (the dispatched method does)")
     rep.ok("R19.2", "dialect and discriminator dispatchers are hook-free", None)
     _flags(repo, rep)
+    _flag_contract(repo, rep)
     _declared_hook(repo, rep)
     _speculation(repo, rep, c)
     from ..core import siblings as _sib2
     _sib2.check_own_method_tests(repo, rep, "R14.11")
+
+def _flag_contract(repo: Repo, rep: Report) -> None:
+    """R19.6: get_pack_method_flags(nested) / get_unpack_method_flags(nested) forward a flag (omit_none, by_alias, dialect,
+    context) exactly when the option is enabled both for the nested class and for the calling class -- no other condition.
+    In particular the serialization context travels through every opted-in class whether or not that class declares
+    hooks itself: the hooks that need it may sit further down."""
+    import ast as _ast
+
+    from ..core.pe import Path
+    from ..core.scen import make_eval
+    from ..core.values import Const, Func, Sym, Tmpl, show
+
+    dummy = _ast.parse("f(x)").body[0].value
+    for fn, flags in (("get_pack_method_flags", {"TO_DICT_ADD_OMIT_NONE_FLAG": "omit_none", "TO_DICT_ADD_BY_ALIAS_FLAG": "by_alias", "ADD_DIALECT_SUPPORT": "dialect", "ADD_SERIALIZATION_CONTEXT": "context"}),
+                      ("get_unpack_method_flags", {"ADD_DIALECT_SUPPORT": "dialect"})):
+        fi = repo.func(M_BUILDER, f"CodeBuilder.{fn}")
+        ev = make_eval(repo, inline_depth=3, allow_inline={fn, "is_code_generation_option_enabled"}, assume=[(re.compile(r"^bool\(nested\)$"), True), (re.compile(r"^nested is None$"), False)])
+        p = Path()
+        B = ev.builder_obj(p)
+        res = ev.call_func(Func(fi, self_v=B), [Sym("nested")], {}, p, dummy, force=True)
+        n = 0
+        bad = False
+        for v, q in res:
+            if q.ctl == "raise":
+                continue
+            for w in q.worlds():
+                at = dict(Path._view(w, "A|"))
+                n += 1
+                txt = show(v) if not isinstance(v, Const) else str(v.v)
+                got = sorted(x.split("=")[0].strip() for x in txt.split(",") if "=" in x)
+                want = []
+                other = []
+                for k, b in at.items():
+                    m = re.search(r"(TO_DICT_ADD_OMIT_NONE_FLAG|TO_DICT_ADD_BY_ALIAS_FLAG|ADD_DIALECT_SUPPORT|ADD_SERIALIZATION_CONTEXT)", k)
+                    if (m is None or "code_generation_options" not in k) and k not in ("bool(nested)",):
+                        other.append(k)
+                for opt, flag in flags.items():
+                    on_nested = next((b for k, b in at.items() if opt in k and "get_config(nested)" in k), None)
+                    on_self = next((b for k, b in at.items() if opt in k and "get_config(B.cls)" in k), None)
+                    if on_nested is True and on_self is True:
+                        want.append(flag)
+                if other and not bad:
+                    bad = True
+                    rep.violation("R19.6", fi.key, f"{fn}: forwarding depends on `{other[0][:80]}`",
+                                  "a flag must be forwarded whenever both classes opted in: cutting the chain at a class that does not use the value itself (no hooks of its own, ...) "
+                                  "starves the classes nested below it (their hooks receive context=None)", loc=fi.loc)
+                elif sorted(want) != got and not bad:
+                    bad = True
+                    rep.violation("R19.6", fi.key, f"{fn}: forwards {got} where both classes enabled {sorted(want)}", "flags are forwarded exactly when both the nested and the calling class enable the option", loc=fi.loc)
+        if n < (4 if len(flags) > 1 else 3):
+            rep.undecide("R19.6", f"{fn}: only {n} outcomes")
+        elif not bad:
+            rep.ok("R19.6", f"{fn}: {n} outcomes forward a flag iff both classes enable its option (no other condition)", None)
+
 
 def _flags(repo: Repo, rep: Report) -> None:
     from .c08 import _r08_4
@@ -251,3 +306,6 @@ def _speculation(repo: Repo, rep: Report, c) -> None:
 _ADD6 = " Borrowed: R14.11 (a subclass's hooks are compiled into its own methods)."
 EXPLANATION += _ADD6
 LEVEL_TEXT += _ADD6
+_ADD10 = ' R19.6: contract of get_pack_method_flags / get_unpack_method_flags for a nested class: a flag is forwarded iff both classes enable its option, nothing else.'
+EXPLANATION += _ADD10
+LEVEL_TEXT += _ADD10
